@@ -114,6 +114,28 @@ def check_case(out: Outcome, case, tag):
         edge = {n for n in mnodes ^ nodes if abs(F[n] - thr) < 1e-9 * thr}
         if mnodes ^ nodes != edge:
             out.fail('correspondence', 'model-nodes', case, expected=sorted(mnodes)[:8], observed=sorted(nodes)[:8])
+    # the same Volume object after its density changed (in-place masking / scaling / re-assignment):
+    # the free energy must be that of the CURRENT density
+    if d.size >= 2:
+        v2 = Volume(data=d.copy(), lattice=Lattice(np.eye(3) * 5.0))
+        with warnings.catch_warnings():
+            warnings.simplefilter('ignore')
+            _ = v2.get_free_energy(temperature=T)
+            _ = v2.probability()
+            mode = int(d.sum()) % 3
+            if mode == 0:
+                v2.data[tuple(np.argwhere(d > 0)[0])] += 7
+            elif mode == 1:
+                v2.data *= 3
+            else:
+                v2.data = np.roll(d, 1) + 1
+            cur = np.array(v2.data)
+            F2 = np.array(v2.get_free_energy(temperature=T).data, dtype=float)
+            Fref = np.array(Volume(data=cur.copy(), lattice=Lattice(np.eye(3) * 5.0)).get_free_energy(temperature=T).data, dtype=float)
+        if not np.allclose(F2, Fref, rtol=1e-12, atol=0):
+            out.fail('property', 'free-energy-of-current-density', {**case, 'edit': ['increment', 'scale', 'reassign'][mode]},
+                     expected=Fref.reshape(-1).tolist()[:6], observed=F2.reshape(-1).tolist()[:6],
+                     note='a Volume queried before its density was edited returns a free energy that is not -kT ln(p) of its current density')
     if vis.sum() >= 2 and (~vis).any() and len(set(d[vis].tolist())) >= 2:
         out.nontrivial.add(json.dumps(case, sort_keys=True))
     if len(out.samples) < 2 and d.size <= 8 and (~vis).any() and vis.sum() >= 2:
